@@ -14,4 +14,78 @@ inductive J where
   | obj (kv : List (String × J))
   deriving Repr, Inhabited
 
+/-! Structural (syntactic) equality, written by hand: `deriving DecidableEq` does not apply to this
+nested inductive.  Structural recursion, so the kernel evaluates it (`decide`). -/
+mutual
+def J.beq : J → J → Bool
+  | .null, .null => true
+  | .bool a, .bool b => a == b
+  | .num n d i, .num n' d' i' => n == n' && d == d' && i == i'
+  | .str a, .str b => a == b
+  | .arr a, .arr b => J.beqList a b
+  | .obj a, .obj b => J.beqKV a b
+  | _, _ => false
+def J.beqList : List J → List J → Bool
+  | [], [] => true
+  | x :: xs, y :: ys => J.beq x y && J.beqList xs ys
+  | _, _ => false
+def J.beqKV : List (String × J) → List (String × J) → Bool
+  | [], [] => true
+  | (k, x) :: xs, (k', y) :: ys => k == k' && J.beq x y && J.beqKV xs ys
+  | _, _ => false
+end
+
+mutual
+theorem J.eq_of_beq : ∀ (a b : J), J.beq a b = true → a = b
+  | .null, b, h => by cases b <;> simp_all [J.beq]
+  | .bool x, b, h => by cases b <;> simp_all [J.beq]
+  | .num n d i, b, h => by cases b <;> simp_all [J.beq]
+  | .str s, b, h => by cases b <;> simp_all [J.beq]
+  | .arr l, b, h => by
+      cases b <;> simp [J.beq] at h
+      rename_i l'
+      exact congrArg J.arr (J.eq_of_beqList l l' h)
+  | .obj kv, b, h => by
+      cases b <;> simp [J.beq] at h
+      rename_i kv'
+      exact congrArg J.obj (J.eq_of_beqKV kv kv' h)
+theorem J.eq_of_beqList : ∀ (a b : List J), J.beqList a b = true → a = b
+  | [], b, h => by cases b <;> simp_all [J.beqList]
+  | x :: xs, b, h => by
+      cases b with
+      | nil => simp [J.beqList] at h
+      | cons y ys =>
+        simp [J.beqList] at h
+        rw [J.eq_of_beq x y h.1, J.eq_of_beqList xs ys h.2]
+theorem J.eq_of_beqKV : ∀ (a b : List (String × J)), J.beqKV a b = true → a = b
+  | [], b, h => by cases b <;> simp_all [J.beqKV]
+  | (k, x) :: xs, b, h => by
+      cases b with
+      | nil => simp [J.beqKV] at h
+      | cons y ys =>
+        obtain ⟨k', y⟩ := y
+        simp [J.beqKV] at h
+        rw [h.1.1, J.eq_of_beq x y h.1.2, J.eq_of_beqKV xs ys h.2]
+end
+
+mutual
+theorem J.beq_refl : ∀ (a : J), J.beq a a = true
+  | .null => by simp [J.beq]
+  | .bool _ => by simp [J.beq]
+  | .num _ _ _ => by simp [J.beq]
+  | .str _ => by simp [J.beq]
+  | .arr l => by simp [J.beq, J.beqList_refl l]
+  | .obj kv => by simp [J.beq, J.beqKV_refl kv]
+theorem J.beqList_refl : ∀ (a : List J), J.beqList a a = true
+  | [] => by simp [J.beqList]
+  | x :: xs => by simp [J.beqList, J.beq_refl x, J.beqList_refl xs]
+theorem J.beqKV_refl : ∀ (a : List (String × J)), J.beqKV a a = true
+  | [] => by simp [J.beqKV]
+  | (k, x) :: xs => by simp [J.beqKV, J.beq_refl x, J.beqKV_refl xs]
+end
+
+instance : DecidableEq J := fun a b =>
+  if h : J.beq a b = true then isTrue (J.eq_of_beq a b h)
+  else isFalse (fun e => h (e ▸ J.beq_refl a))
+
 end Cij
